@@ -367,6 +367,11 @@ func (obj *SparseConstFloat32VectorJointIterator) Ok() bool {
          !(obj.s2.GetFloat32() == float32(0))
 }
 func (obj *SparseConstFloat32VectorJointIterator) Next() {
+  // skip positions where both operands hold a zero
+  for obj.next() && !obj.Ok() {
+  }
+}
+func (obj *SparseConstFloat32VectorJointIterator) next() bool {
   ok1 := obj.it1.Ok()
   ok2 := obj.it2.Ok()
   obj.s1 = ConstFloat32(0)
@@ -393,6 +398,7 @@ func (obj *SparseConstFloat32VectorJointIterator) Next() {
   } else {
     obj.s2 = ConstFloat32(0.0)
   }
+  return ok1 || ok2
 }
 func (obj *SparseConstFloat32VectorJointIterator) GetConst() (ConstScalar, ConstScalar) {
   return obj.s1, obj.s2
